@@ -601,6 +601,7 @@ def oracle(olog, tags):
                 tags.add("oob-while-closing")
                 if nxt[1] != m:
                     swallowed.add(m)      # swallowed by the relay of another monitor further down: no reply owed
+                    tags.add("oob-swallowed-by-inner-close")
                 else:
                     awaiting_reply[m] = d
             else:
@@ -702,20 +703,6 @@ def judge(case):
     except Exception as e:  # noqa: BLE001
         raise core.InfraError(f"oracle crashed: {e!r} on {json.dumps(case)}")
     situation_tags(case, lines, outs, real.olog, tags)
-    # The model describes the code as it is.  From the action in which an accepted oob value is swallowed
-    # by the close() of a relay further down (the known stale-state finding) the op-by-op comparison stops:
-    # the oracle above judges that territory, and a repaired monitor legitimately differs from the model.
-    real.cut = None
-    nact = -1
-    ol_ = real.olog
-    for i_, ev_ in enumerate(ol_):
-        if ev_[0] == "act":
-            nact += 1
-        elif (ev_[0] == "oobcall" and ev_[3] == 1 and i_ + 1 < len(ol_) and ol_[i_ + 1][0] == "exc"
-              and ol_[i_ + 1][1] != ev_[1] and ol_[i_ + 1][2] == "RuntimeError"):
-            real.cut = max(nact, 0)
-            tags.add("oob-swallowed-by-inner-close")
-            break
     if bad is not None:
         bad = bad + (real.olog[max(0, bad[1] - 3): bad[1] + 2],)
     elif real.athrow_bad is not None:
@@ -848,8 +835,6 @@ def explore(ctx, cases, label=""):
                           small, expected=b2[2], observed={"got": b2[3], "events": b2[4]},
                           theorem="Asynkit.C07." + THEOREM_OF.get(b2[0].split("-oracle")[0], "oob_exactly_once_in_order"))
         pre = lean_lines(case, [])
-        if real.cut is not None:
-            lines, outs = lines[:real.cut], outs[:real.cut]
         spans.append((len(all_lines) + len(pre), len(lines)))
         all_lines.extend(pre + lines)
         reals.append((case, lines, outs))
